@@ -209,6 +209,15 @@ def run(facts, rep):
                             checks.append(('store', c, tgt[2][1], e.term, e.line))
                 elif e.kind == 'call':
                     last = e.name.split('::')[-1]
+                    if last in ('swap_cols', 'swap_columns') and len(e.args) == 3 and D.container_of(e.args[0]) == 'lambda':
+                        # a whole-column exchange of lambda: entries of column a (degree 2(a+1)) land in column b
+                        try:
+                            da, db = D.place_degree('lambda', ('tuple', (('const', 0), e.args[1]))), D.place_degree('lambda', ('tuple', (('const', 0), e.args[2])))
+                            key = ('colswap', 'lambda', sk(e.args[1]) + ',' + sk(e.args[2]), 'swap_cols', tuple(sorted(subst.items())))
+                            if key not in seen:
+                                seen[key] = (True, fshow(da), e.line) if da == db else (False, 'columns %s and %s of lambda are exchanged as they are, although their entries have degrees %s and %s (lambda[(i,j)] = D_j * mu_ij)' % (sk(e.args[1]), sk(e.args[2]), fshow(da), fshow(db)), e.line)
+                        except (Unknown, Inhomogeneous) as ex:
+                            seen[('colswap', 'lambda', sk(e.args[1]), 'swap_cols', tuple(sorted(subst.items())))] = (None, str(ex), e.line)
                     if last == 'div_round' and len(e.args) == 2:
                         checks.append(('quotient', None, None, ('call', 'x::div_round', e.args, e.site), e.line))
                     elif last in ('ge', 'gt', 'le', 'lt', 'cmp', 'partial_cmp') and len(e.args) == 2 and 'as_int(' in sk(e.args[0]):
